@@ -29,12 +29,16 @@ var exprForms = []string{
 	`f(a|up, [b])`, `h.k|up`, `(a)`, `a ? "y" : 'n'`,
 	`[]|join`, `{}|length`, `[[1, 2], []]|length`, `f([], {})`,
 	`f("x#{a}y")`, `["#{a}", "b"]|join`, `("#{a}#{b}")`, `{"k": "#{a}"}.k`,
+	`not inx`, `a and not inx`, `z or inx`, `a in inlist`, `a not in inlist`, `a is not odd`, `s starts with withal`, `s ends with withal`, `not notz`, `isz is odd`, `a b-and android`, `android b-or z`,
+	`{"k": {"j": 1}}.k.j`, `[{"k": 1}, {"k": {}}]|length`, `f({"k": [1, {"j": 2}]})`,
+	`'' ~ "x#{a}"`, `f('', "#{a}")`, `"" ~ 'x' ~ "#{b}#{''}"`,
 	`arr.1.0`, `h.k.0`, `arr.0|up`, `arr.0 ~ a`, `arr.0[0]`, `arr.0.k`, `nest.0.k`, `nest.1.k|up`,
 	`a and -b`, `z or +a`, `not -z`, `a and not z`, `a in [-1, +3]`, `a is odd or -b`, `a - -b`, `a ~ -b`, `-a ** 2`, `(a) - (b)`, `f(-a, +b)`, `a == -b ? -a : +b`,
 }
 
 var tagForms = []CorpusItem{
 	{"text", "hello world"},
+	{"hashtext", "<a href=\"#{{ a }}\">{{ b ~ '' }}</a> #{ not an interpolation } {{ '' }}"},
 	{"comment", "a{# note #}b"},
 	{"if", "{% if a %}yes{% endif %}"},
 	{"ifelse", "{% if z %}yes{% else %}no{% endif %}"},
@@ -135,11 +139,12 @@ func (o stdObj) Add(a, b float64) float64 { return a + b }
 func stdCtx() map[string]stick.Value {
 	return map[string]stick.Value{
 		"a": 3, "b": 4, "c": 5, "z": 0,
-		"s":    "hello",
-		"arr":  []stick.Value{1, 0, 3},
-		"one":  []stick.Value{1},
-		"h":    map[string]stick.Value{"k": "vk"},
-		"obj":  stdObj{"ob"},
+		"s":   "hello",
+		"arr": []stick.Value{1, 0, 3},
+		"one": []stick.Value{1},
+		"h":   map[string]stick.Value{"k": "vk"},
+		"obj": stdObj{"ob"},
+		"inx": 0, "inlist": []stick.Value{3}, "withal": "he", "notz": 1, "isz": 3, "android": 1,
 		"nest": []stick.Value{map[string]stick.Value{"k": "n0"}, map[string]stick.Value{"k": "n1"}},
 	}
 }
